@@ -81,7 +81,9 @@ def status_lines(stdout):
     for l in stdout.split("\n"):
         m = re.match(r"^(\S.*?)\s+\.\. (.*)$", l)
         if m:
-            tag = "OK" if "[OK]" in m.group(2) else "SKIPPED" if "[SKIPPED]" in m.group(2) else None
+            g = m.group(2)
+            tag = ("OK" if "[OK]" in g else "SKIPPED" if "[SKIPPED]" in g else "FAILED" if "[FAILED]" in g
+                   else "CANCELLED" if "[CANCELLED]" in g else None)
             out.append([m.group(1).strip(), tag, l])
         elif l.startswith("[FAILED]") and out:
             out[-1][1] = "FAILED"
